@@ -52,7 +52,7 @@ EXTRA = {
     "C05": " Also: generous peers (60..75 extra nodes per lookup answer) and well-formed wrong-kind replies. Future-dated valid signed announcements read before their timestamp; a slow consumer holding a value stream. An ageing tail (peers fall silent, 21..26 minutes, then probes).",
     "C06": " Also: a public caller that re-keys to a BEP42 id in the middle of a train of bootstrapped() calls; bursts of 132..170 lookups on distinct targets. A deep network (a lookup contacting more than 200 addresses); get_mutable with a seq filter.",
     "C07": " Also: a late-answer family (relays with dead contacts keep the lookup alive while late peers answer after 0.52-1.4 s; late answers that certainly count are decided from the trace, ambiguous ones suspend the verdicts); the same lookup repeated after some of its answerers died. A busy socket (several other lookups with slow peers on the same node).",
-    "C08": " Also: token-bearing extra nodes for mutable puts (majority over all store requests), a put started from the cache while a lookup of the same target comes back empty-handed (rule: no query error while a store request is outstanding that is then acknowledged in time), read-only flagged write replies. A key that already holds an item with the same seq and another value. Very slow links judged with the request timeout the writer itself reports.",
+    "C08": " Also: token-bearing extra nodes for mutable puts (majority over all store requests), a put started from the cache while a lookup of the same target comes back empty-handed (rule: no query error while a store request is outstanding that is then acknowledged in time), read-only flagged write replies. A key that already holds an item with the same seq and another value. Very slow links judged with the request timeout the writer itself reports, two of three such runs with the force-compaction fault point (every poll compacts the in-flight request list).",
     "C11": " Also: mixed address classes (LAN / loopback / link-local and routable peers and readers) and same-IP same-prefix sibling peers. Stale aliases (a live peer listed under an id it no longer has). A lone peer leaving its bucket, then the first round of a fresh lookup checked against the table snapshot.",
     "C09": " Also: late repliers, garbage contacts, tid aliases on veteran sockets, and an asked-again family (a peer slow on one request is asked again before its late answer arrives).",
     "C12": " Also: refresh rule (a re-added known node has age zero), scripted peers restarting under a new id on their address.",
